@@ -4,7 +4,7 @@ import os
 
 from effects import Effects
 from facts import EngineError, VERIF
-from flow import (result_exits, must_pass, can_reach, calls_named, switch_on_discriminant_of,
+from flow import (result_exits, must_pass, can_reach, calls_named, switch_on_discriminant_of, reach_const,
                   bool_switch_targets, stores_to, value_defs)
 from mir import AP, callee_of, callee_paths, op_place, op_const, strip_generics
 
@@ -121,14 +121,53 @@ def maplen(ctx, E, crate, fa, ok_b, map_calls):
             ctx.ob("MAPLEN", "%s|crossed-compare" % P_MAP, False, fa.loc(b),
                    "the length check compares the mapper's %s with the connector's %s "
                    "(left and right sides crossed)" % (sides[0][0], sides[1][0]))
+    # comparisons whose result is kept in a flag (`let fits = a == b && c == d;`) instead of being
+    # branched on directly: follow the flag's value on the mismatch outcome
+    flagged = {}
+    for b, i, s0 in fa.stmts():
+        rv = s0.get("rv")
+        if not rv or rv["k"] != "binop" or rv["op"] not in ("Eq", "Ne") or s0["lhs"]["p"]:
+            continue
+        sides = []
+        for opnd in (rv["a"], rv["b"]):
+            oo = fa.origin(opnd)
+            if oo[0] != "call":
+                sides = []
+                break
+            c = callee_of(oo[2])
+            nm = c.get("name") or c["path"].rsplit("::", 1)[-1]
+            ap = E.ap_operand(fa, oo[2]["args"][0]) if oo[2]["args"] else None
+            sides.append((nm, ap))
+        if len(sides) != 2:
+            continue
+        names = {x[0] for x in sides}
+        aps = [x[1] for x in sides]
+        if len(names) == 1 and list(names)[0] in ("num_left", "num_right") and mapper_ap in aps and conn_ap in aps:
+            side = list(names)[0]
+            if side in found:
+                continue
+            mismatch = 0 if rv["op"] == "Eq" else 1
+            r = reach_const(fa, b, env0={s0["lhs"]["l"]: mismatch}, after_stmt=i)
+            # ... and no mapping call is reached on a path that skips this comparison
+            around = reach_const(fa, 0, avoid={b})
+            flagged[side] = (b, not (r & ok_b) and not (r & map_blocks) and not (around & map_blocks))
     for side in ("num_left", "num_right"):
         cands = found.get(side, [])
         ok = False
+        if not cands and side in flagged:
+            ok = flagged[side][1]
+            ctx.ob("MAPLEN", "%s|%s" % (P_MAP, side), ok, fn_loc(crate, P_MAP),
+                   "mapper.%s() is compared with the connector's before any component is remapped; "
+                   "a mismatch returns Err" % side if ok else
+                   "wrong-length mappings are not rejected before use (the mismatch outcome of the %s "
+                   "comparison still reaches a mapping call or Ok): the connectors would panic or the "
+                   "lexicon mapping would index out of range" % side)
+            continue
         why = "no comparison of mapper.%s() with connector.%s() found" % (side, side)
         for (b, f_t, t_t) in cands:
             # one edge must lead only to Err exits and to no mapping call
             for bad, good in ((f_t, t_t), (t_t, f_t)):
-                r = fa.reachable(bad)
+                r = reach_const(fa, bad)
                 if not (r & ok_b) and not (r & map_blocks):
                     # every mapping call must be dominated by the check
                     if all(fa.dominates(b, mb) for mb in map_blocks):
